@@ -161,10 +161,13 @@ fn fq2_case_strategy() -> BoxedStrategy<Fq2Case> {
 fn ck2(name: &str, got: &crt::Fq2, want: &Fq2, a: &Fq2, b: &Fq2) -> Result<(), String> {
     let g = fq2_m(got);
     if &g != want {
-        Err(format!("Fq2::{}: crate {:?}, quotient ring gives {:?} (a={:?}, b={:?})", name, g, want, a, b))
-    } else {
-        Ok(())
+        return Err(format!("Fq2::{}: crate {:?}, quotient ring gives {:?} (a={:?}, b={:?})", name, g, want, a, b));
     }
+    // the result must also be THE canonical element for the crate's own equality / zero test
+    if *got != fq2_c(want) || got.is_zero() != want.is_zero() {
+        return Err(format!("Fq2::{}: the result has the value {:?} but the crate's own == / is_zero() do not treat it as that element (non-canonical internal representation; a={:?}, b={:?})", name, want, a, b));
+    }
+    Ok(())
 }
 
 pub fn check_fq2(c: &Fq2Case, info: &mut Info) -> Result<(), String> {
@@ -245,10 +248,14 @@ fn fq6_case_strategy() -> BoxedStrategy<Fq6Case> {
 fn ck6(name: &str, got: &crt::Fq6, want: &Fq12, ctx: &str) -> Result<(), String> {
     let g = fq6_flat(&fq6_m(got));
     if &g != want {
-        Err(format!("Fq6::{}: crate {:?}, quotient ring gives {:?} ({})", name, g, want, ctx))
-    } else {
-        Ok(())
+        return Err(format!("Fq6::{}: crate {:?}, quotient ring gives {:?} ({})", name, g, want, ctx));
     }
+    if let Some(t6) = flat_to_fq6(want) {
+        if *got != fq6_c(&t6) || got.is_zero() != want.is_zero() {
+            return Err(format!("Fq6::{}: the result has the right value but the crate's own == / is_zero() do not treat it as that element (non-canonical internal representation; {})", name, ctx));
+        }
+    }
+    Ok(())
 }
 
 pub fn check_fq6(c: &Fq6Case, info: &mut Info) -> Result<(), String> {
@@ -342,10 +349,12 @@ fn fq12_case_strategy() -> BoxedStrategy<Fq12Case> {
 fn ck12(name: &str, got: &crt::Fq12, want: &Fq12, ctx: &str) -> Result<(), String> {
     let g = fq12_m(got);
     if &g != want {
-        Err(format!("Fq12::{}: crate {:?}, quotient ring gives {:?} ({})", name, g, want, ctx))
-    } else {
-        Ok(())
+        return Err(format!("Fq12::{}: crate {:?}, quotient ring gives {:?} ({})", name, g, want, ctx));
     }
+    if *got != fq12_c(want) || got.is_zero() != want.is_zero() {
+        return Err(format!("Fq12::{}: the result has the right value but the crate's own == / is_zero() do not treat it as that element (non-canonical internal representation; {})", name, ctx));
+    }
+    Ok(())
 }
 
 pub fn check_fq12(c: &Fq12Case, info: &mut Info) -> Result<(), String> {
